@@ -122,6 +122,10 @@ pub fn run_c19(check: &Check) {
             for (si, src) in NATIVE.iter().enumerate() {
                 for (ti, target) in targets.iter().enumerate() {
                     for mid in ["mem", "file"] {
+                        // persisting a native object in between is C01's subject
+                        if mid == "file" && NATIVE.iter().any(|n| n.0 == *target) {
+                            continue;
+                        }
                         let case_id = format!("img{i}/{origin}/src{si}/t{ti}/{mid}");
                         if !l.want(&case_id) {
                             continue;
